@@ -162,10 +162,51 @@ Fixpoint m_after_cancel (xe : bool) (evs : list event) : bool :=
   | _ :: r => m_after_cancel xe r
   end.
 
+(** C14 (at rest after shutdown): a Status() call made after Wait() returned, with no PushTask call in flight,
+    reports exactly the accepted tasks that were never started: (#pushes that returned nil) - (#S).
+    This is what every all-dead state of the model gives: a task left in a buffer stays in its length,
+    a task the queue goroutine held when it died stays in the counter (QDead (Some t)), nothing else remains. *)
+Fixpoint m_pending_after_wait (oks ss : nat) (open : list nat) (waited : bool) (clean : list nat) (evs : list event) : bool :=
+  match evs with
+  | [] => true
+  | EB p _ _ :: r => m_pending_after_wait oks ss (p :: open) waited [] r          (* a call in flight spoils the calls being measured *)
+  | ER p (Some ROk) :: r => m_pending_after_wait (S oks) ss (remove1 p open) waited clean r
+  | ER p _ :: r => m_pending_after_wait oks ss (remove1 p open) waited clean r
+  | ES _ :: r => m_pending_after_wait oks (S ss) open waited clean r
+  | EW :: r => m_pending_after_wait oks ss open true clean r
+  | EQb o :: r =>
+      let clean' := if waited && (match open with [] => true | _ => false end) then o :: clean else clean in
+      m_pending_after_wait oks ss open waited clean' r
+  | EQe o pd _ :: r =>
+      (negb (mem o clean) || Nat.eqb (pd + ss) oks) && m_pending_after_wait oks ss open waited clean r
+  | _ :: r => m_pending_after_wait oks ss open waited clean r
+  end.
+
+(** every PushTask call has returned by the end of the history (histories are written after the run has
+    settled: a producer that is still inside PushTask then - in particular after the cancel - is stuck) *)
+Fixpoint m_push_returns (open : list nat) (evs : list event) : bool :=
+  match evs with
+  | [] => match open with [] => true | _ => false end
+  | EB p _ _ :: r => m_push_returns (p :: open) r
+  | ER p _ :: r => m_push_returns (remove1 p open) r
+  | _ :: r => m_push_returns open r
+  end.
+
+(** observer ids are fresh per Status() call and every Qe answers an open Qb (the acceptor keys the
+    snapshot of a call by its observer id) *)
+Fixpoint m_obs_ids (used open : list nat) (evs : list event) : bool :=
+  match evs with
+  | [] => true
+  | EQb o :: r => negb (mem o used) && m_obs_ids (o :: used) (o :: open) r
+  | EQe o _ _ :: r => mem o open && m_obs_ids used (remove1 o open) r
+  | _ :: r => m_obs_ids used open r
+  end.
+
 Record monitors := {
   mo_once : bool; mo_started_pushed : bool; mo_failed_not_started : bool; mo_results : bool;
   mo_fin : bool; mo_bound : bool; mo_pending : bool; mo_lastpanic : bool;
-  mo_after_wait : bool; mo_leak : bool; mo_after_cancel : bool }.
+  mo_after_wait : bool; mo_leak : bool; mo_after_cancel : bool;
+  mo_pending_after_wait : bool; mo_push_returns : bool; mo_obs_ids : bool }.
 
 Definition run_monitors (n qs : nat) (evs : list event) : monitors :=
   {| mo_once := m_once [] evs;
@@ -178,11 +219,15 @@ Definition run_monitors (n qs : nat) (evs : list event) : monitors :=
      mo_lastpanic := m_lastpanic [] false false [] evs;
      mo_after_wait := m_after_wait 0 false evs;
      mo_leak := m_leak evs;
-     mo_after_cancel := m_after_cancel false evs |}.
+     mo_after_cancel := m_after_cancel false evs;
+     mo_pending_after_wait := m_pending_after_wait 0 0 [] false [] evs;
+     mo_push_returns := m_push_returns [] evs;
+     mo_obs_ids := m_obs_ids [] [] evs |}.
 
 Definition monitors_ok (m : monitors) : bool :=
   mo_once m && mo_started_pushed m && mo_failed_not_started m && mo_results m && mo_fin m && mo_bound m &&
-  mo_pending m && mo_lastpanic m && mo_after_wait m && mo_leak m && mo_after_cancel m.
+  mo_pending m && mo_lastpanic m && mo_after_wait m && mo_leak m && mo_after_cancel m &&
+  mo_pending_after_wait m && mo_push_returns m && mo_obs_ids m.
 
 (* ------------------------------------------------------------------ *)
 (** * Part 2: acceptor *)
@@ -237,6 +282,7 @@ Variable qs : nat.       (* queueSize *)
 Variable n : nat.        (* laneSize *)
 Variable lk : look.
 Variable reduce : bool.  (* quotient by the silent steps that commute with everything observable *)
+Variable prune : bool.   (* drop states the rest of the history already dooms (look-ahead) *)
 
 (** successors of [s] by the labels one lane's goroutines may take silently *)
 Definition lane_succs (c : actx) (s : state) (i : nat) : list state :=
@@ -244,7 +290,7 @@ Definition lane_succs (c : actx) (s : state) (i : nat) : list state :=
   match nth_error (lanes s) i with
   | None => []
   | Some ln =>
-    let can_start := match q ln with QTry t | QOffer t => mem t (lk_starts lk) | _ => false end in
+    let can_start := negb prune || match q ln with QTry t | QOffer t => mem t (lk_starts lk) | _ => false end in
     let hand :=
       if can_start then
         opt_cons (st (QTryOwn i)) (opt_cons (st (QOfferOwn i))
@@ -261,7 +307,7 @@ Definition lane_succs (c : actx) (s : state) (i : nat) : list state :=
 (** a PushTask call in flight: begin it, or complete it the way the history says it completes *)
 Definition call_succs (s : state) (pc : nat * (nat * task)) : list state :=
   let '(p, (i, t)) := pc in
-  let want := afind (lk_res lk) t in
+  let want := if prune then afind (lk_res lk) t else None in
   let allowed r := match want with Some x => result_eqb x r | None => true end in
   if negb (mem t (pushed s)) then
     match step qs s (PushBegin p i t) with
@@ -282,7 +328,7 @@ Definition obs_succs (s : state) (o : nat) : list state :=
   match snap_of s o with
   | Some _ => []                                  (* this call is complete *)
   | None =>
-    let want := afind (lk_snaps lk) o in
+    let want := if prune then afind (lk_snaps lk) o else None in
     match ostate_of s o with
     | OIdle => opt_cons (step qs s (StatusBegin o)) []
     | OLen k a =>
@@ -512,7 +558,11 @@ Fixpoint accept (fuel : nat) (c : actx) (belief : list state) (evs : list event)
 End Acceptor.
 
 Definition accept_history (n qs fuel : nat) (reduce : bool) (evs : list event) : aresult :=
-  accept qs n (mk_look evs) reduce fuel actx0 [init n] evs 0 1.
+  accept qs n (mk_look evs) reduce true fuel actx0 [init n] evs 0 1.
+
+(** the plain semantics: no reduction, no look-ahead pruning (reference for the comparison run) *)
+Definition accept_history_plain (n qs fuel : nat) (evs : list event) : aresult :=
+  accept qs n (mk_look evs) false false fuel actx0 [init n] evs 0 1.
 
 (* ------------------------------------------------------------------ *)
 (** * Verdict *)
